@@ -28,7 +28,17 @@ extern "C" {
 void seam_set_psize(int);
 long seam_refcount(const buffer *);
 int seam_is_alloc(const buffer *);
+void seam_fail_at(long);
+long seam_fired(void);
 }
+
+/* the k-th allocation (buffers, name storage) made by the library inside the scope fails */
+struct Inject {
+	Inject(long k) { fired = 0; seam_fail_at(k); }
+	~Inject() { fired = seam_fired(); seam_fail_at(0); }
+	static long fired;
+};
+long Inject::fired;
 
 #define MAXH 8
 #define MAXO 8
@@ -61,7 +71,17 @@ public:
 };
 static HMeta *metas[MAXO + 1];
 
-static const char *names[MAXN + 1] = {
+static char long_name[70000];      /* cannot be stored: identifiers carry a 16 bit length */
+static const char *name_of(long n)
+{
+	extern const char *names[];
+	if (n == 99) {
+		if (!long_name[0]) memset(long_name, 'x', sizeof(long_name) - 1);
+		return long_name;
+	}
+	return (n >= 1 && n <= MAXN) ? names[n] : 0;
+}
+const char *names[MAXN + 1] = {
 	0, "a", "the-second-name-is-too-long-for-inline-storage", "c3", "d", "e5-long-long-long-long-long-long-long", "f", "g", "h"
 };
 static long name_index(const identifier &id)
@@ -174,6 +194,7 @@ static void emit_dbg(long long rc)
 	drv_dbg();
 	j_int("rc", rc);
 	j_int("heap", heap_live - heap_base);
+	j_int("fired", Inject::fired);
 	j_arr_open("refs");
 	for (int i = 0; i < nh; i++) j_item_int(seam_refcount(hbuf(i)));
 	j_arr_close();
@@ -213,10 +234,12 @@ static void step_ref(struct cmd *c, int h)
 	RA &ar = R[h];
 	long pos = (long) drv_int(c, "pos", 0);
 	long o = (long) drv_int(c, "o", 0);
+	long f = (long) drv_int(c, "f", 0);
 
 	if (!strcmp(a, "rinsert")) {
 		Obj *p = obj_take(o);
-		bool r = ar.insert(pos, p);
+		bool r;
+		{ Inject inj(f); r = ar.insert(pos, p); }
 		if (!r && p) p->unref();
 		answer(c, r ? "ok" : "refused", 0);
 	}
@@ -238,7 +261,8 @@ static void step_ref(struct cmd *c, int h)
 		answer(c, "ok", ar.count());
 	}
 	else if (!strcmp(a, "resize")) {
-		bool r = ar.resize((long) drv_int(c, "len", 0));
+		bool r;
+		{ Inject inj(f); r = ar.resize((long) drv_int(c, "len", 0)); }
 		answer(c, r ? "ok" : "refused", 0);
 	}
 	else if (!strcmp(a, "reserve")) {
@@ -257,16 +281,19 @@ static void step_item(struct cmd *c, int h)
 	long pos = (long) drv_int(c, "pos", 0);
 	long o = (long) drv_int(c, "o", 0);
 	long n = (long) drv_int(c, "n", 0);
-	const char *name = (n >= 1 && n <= MAXN) ? names[n] : 0;
+	long f = (long) drv_int(c, "f", 0);
+	const char *name = name_of(n);
 
 	if (!strcmp(a, "iappend")) {
 		Obj *p = obj_take(o);
-		item<Obj> *it = ar.append(p, name);
-		if (!it && p) p->unref();
+		item<Obj> *it;
+		{ Inject inj(f); it = ar.append(p, name); }
+		if (!it && p) p->unref();          /* the caller's release after a failed append */
 		answer(c, it ? "ok" : "refused", 0);
 	}
 	else if (!strcmp(a, "iinsert")) {
-		item<Obj> *it = ar.insert(pos);
+		item<Obj> *it;
+		{ Inject inj(f); it = ar.insert(pos); }
 		answer(c, it ? "ok" : "refused", 0);
 	}
 	else if (!strcmp(a, "iset")) {
@@ -274,6 +301,7 @@ static void step_item(struct cmd *c, int h)
 		{
 			item<Obj> src(obj_take(o));     /* the source keeps (and releases) its own reference */
 			if (name) src.set_name(name);
+			Inject inj(f);
 			r = ar.set(pos, src);
 		}
 		answer(c, r ? "ok" : "refused", 0);
@@ -292,7 +320,8 @@ static void step_item(struct cmd *c, int h)
 		answer(c, "ok", ar.count());
 	}
 	else if (!strcmp(a, "resize")) {
-		bool r = ar.resize((long) drv_int(c, "len", 0));
+		bool r;
+		{ Inject inj(f); r = ar.resize((long) drv_int(c, "len", 0)); }
 		answer(c, r ? "ok" : "refused", 0);
 	}
 	else if (!strcmp(a, "reserve")) {
@@ -309,7 +338,8 @@ static void step_group(struct cmd *c, int h)
 	const char *a = c->action;
 	long o = (long) drv_int(c, "o", 0);
 	long n = (long) drv_int(c, "n", 0);
-	const char *name = (n >= 1 && n <= MAXN) ? names[n] : 0;
+	long f = (long) drv_int(c, "f", 0);
+	const char *name = name_of(n);
 
 	if (!strcmp(a, "gappend")) {
 		HMeta *p = meta_take(o);
@@ -317,6 +347,7 @@ static void step_group(struct cmd *c, int h)
 		{
 			identifier id;
 			if (name) id.set_name(name);
+			Inject inj(f);
 			r = G[h]->append(name ? &id : 0, p);
 		}
 		if (r < 0 && p) p->unref();
@@ -327,7 +358,7 @@ static void step_group(struct cmd *c, int h)
 		{
 			node nd(meta_take(o));            /* the node owns one reference and releases it */
 			if (name) nd.ident.set_name(name);
-			r = add_items(*G[h], &nd, 0, 0);
+			{ Inject inj(f); r = add_items(*G[h], &nd, 0, 0); }
 		}
 		answer(c, r ? "ok" : "refused", 0);
 	}
